@@ -4,13 +4,14 @@
 cd "$(dirname "$0")/.."
 exec 9>/tmp/seed_pipeline.lock; flock 9
 for p in "$@"; do
-  for l in A B; do
+  prop="${p##*_}"   # R2_C01 -> C01
+  for l in A B C; do
     [ -f /tmp/seed_out/$p/$l/patch.diff ] || continue
     echo "#### $p/$l"; tools/confirm_seed.sh /tmp/wt/$p /tmp/seed_out/$p/$l
   done > /tmp/confirm_$p.log 2>&1
-  for l in A B; do
+  for l in A B C; do
     [ -f /tmp/seed_out/$p/$l/patch.diff ] || continue
-    echo "#### $p/$l -> $p"; tools/with_patch.sh /tmp/seed_out/$p/$l/patch.diff $p quick 2>&1 | grep -E "VIOLATION|check=|Quick:|HARNESS|error" | cut -c1-300 | head -8
+    echo "#### $p/$l -> $prop"; tools/with_patch.sh /tmp/seed_out/$p/$l/patch.diff $prop quick 2>&1 | grep -E "VIOLATION|check=|Quick:|HARNESS|error" | cut -c1-300 | head -8
   done > /tmp/eval_$p.log 2>&1
   git -C /repo worktree remove --force /tmp/wt/$p
 done
